@@ -291,8 +291,11 @@ def edge_replay(rep, g, c, traces, maxedges=None, rng=None):
 
 # ------------------------------------------------------------------------------------------------ code -> spec
 def random_history(rng, c, steps):
+    # a third of the histories continue the run by handing the object's own refinement container to a new performSpatiallyAdaptiv call
+    via = c.get('continue_via') or rng.choice(['resume', 'resume', 'resume', 'resume', 'container', 'mixed'])
     run = DimWiseRun(c['D'], c['lmin'], c['lmax'], version=c['version'], rebalancing=c['rebalancing'], boundary=c['boundary'],
-                     safety=c['sfn'] / c['sfd'], margin=c.get('margin'), a=c.get('a'), b=c.get('b'), max_hats=c.get('max_hats'), hat_seed=rng.randint(0, 10 ** 6), int_domain=c.get('int_domain', False))
+                     safety=c['sfn'] / c['sfd'], margin=c.get('margin'), a=c.get('a'), b=c.get('b'), max_hats=c.get('max_hats'), hat_seed=rng.randint(0, 10 ** 6), int_domain=c.get('int_domain', False),
+                     continue_via=via)
     run.evaluate()
     evs = [observe(run)]
     script = []
@@ -308,8 +311,8 @@ def random_history(rng, c, steps):
         script.append(B)
         if ev['aborted']:
             break
-    return {'cfg': trace_cfg(run, c['lmax']), 'fresh': True, 'events': [strip(e) for e in evs], 'origin': 'random ' + c['name'],
-            '_script': {'cfg': dict(run.cfg), 'start_depth': 0, 'steps': script}, '_detail': [e.get('_detail') for e in evs],
+    return {'cfg': trace_cfg(run, c['lmax']), 'fresh': True, 'events': [strip(e) for e in evs], 'origin': 'random ' + c['name'] + ('' if via == 'resume' else ' (continued via %s)' % via),
+            '_script': {'cfg': dict(run.cfg, continue_via=via), 'start_depth': 0, 'steps': script}, '_detail': [e.get('_detail') for e in evs],
             '_decisions': decisions}
 
 
@@ -358,9 +361,16 @@ def chain_history(c, pattern, hat_seed=0):
         for d in range(run.D):
             n = len(run.intervals(d))
             row = [0] * n
-            if d in dims:
+            if side == 'I':
+                # dims: {dimension: [interval indices (negative = from the end)]}
+                for i in dims.get(d, []):
+                    if -n <= i < n:
+                        row[i] = 10
+            elif d in dims:
                 row[0 if side == 'F' else n - 1] = 10
             B.append(row)
+        if not any(v for row in B for v in row):
+            break
         sel = selection_of(run, B)
         decisions.append(sorted((d, run.snap(d, run.intervals(d)[i].start), run.snap(d, run.intervals(d)[i].end)) for d, i in sel))
         ev = do_step(run, B)
